@@ -288,8 +288,8 @@ def mkSlice (spec : SliceSpec) (r : RefDS) : Res RefDS := do
 
 def mkFilterEager (f : Val → Res Bool) (r : RefDS) : Res RefDS := do
   if !r.indexable then throw .runtimeError
-  let vs ← streamToRes r.stream
-  let idx ← filterIdx f vs 0
+  let idx ← filterIdx f r.stream.vals 0
+  let _ ← streamToRes r.stream
   let _ ← r.len
   mkSlice (.idx (idx.map Int.ofNat)) r
 
@@ -316,8 +316,8 @@ def mkSort (keyFn : Option (Val → Res Val)) (reverse : Bool) (r : RefDS) : Res
     | .error e => if e == .notImplemented then .error .runtimeError else .error e
     | .ok ks => mkSlice (.keys (sortKeys ks reverse)) r
   | some f => do
-    let vs ← streamToRes r.stream
-    let kv ← vs.mapM f
+    let kv ← r.stream.vals.mapM f
+    let _ ← streamToRes r.stream
     match asInts kv with
     | some is => mkSlice (.idx ((sortOrderBy intLt is reverse).map Int.ofNat)) r
     | none =>
